@@ -127,6 +127,24 @@ func propC25(rt *rapid.T) {
 	c := ev.For("C25")
 	ctx := context.Background()
 	classes := []string{}
+	// The case is recorded when the property function returns OR stops at a violation, so that a
+	// violating run still shows what it explored. Non-trivial = both valid signatures were checked.
+	rec := struct {
+		consumer, provider, session, requestData, reply string
+		reqBytes, replyBytes                            []byte
+		sessionOK, replyOK                              bool
+	}{}
+	defer func() {
+		if rec.session == "" {
+			return // stopped while still generating (e.g. rapid ran out of recorded draws)
+		}
+		nontrivial := rec.sessionOK && rec.replyOK
+		c.Case(nontrivial, rec.consumer+"|"+hex.EncodeToString(rec.reqBytes)+"|"+hex.EncodeToString(rec.replyBytes), classes...)
+		if nontrivial {
+			c.Sample(map[string]any{"consumer": rec.consumer, "provider": rec.provider, "session": rec.session,
+				"request_data": rec.requestData, "reply": rec.reply})
+		}
+	}()
 
 	consumer := genAccount(rt, "consumer")
 	provider := genAccount(rt, "provider")
@@ -257,6 +275,8 @@ func propC25(rt *rapid.T) {
 	// ---- (1)+(6): the signed session recovers to the consumer; checking leaves it untouched ----
 	signedBytes := mustMarshal(rt, "signed session", session)
 	signed := cloneSession(rt, session) // pristine copy; every tamper starts from a clone of it
+	rec.consumer, rec.provider, rec.session = consumer.Addr.String(), provider.Addr.String(), signed.String()
+	rec.reqBytes = mustMarshal(rt, "request", request)
 	c.Clause("session-recovers-to-consumer")
 	if ok, got := recoversTo(*session, consumer.Addr); !ok {
 		rt.Fatalf("%s", ev.Violation("C25", "untampered consumer-signed session does not recover to the consumer: want %s got %s; session=%s",
@@ -267,6 +287,7 @@ func propC25(rt *rapid.T) {
 	if err != nil || !pk.Equals(consumer.PubKey) {
 		rt.Fatalf("%s", ev.Violation("C25", "RecoverPubKey of the untampered session: err=%v key=%x want %x", err, pk.Bytes(), consumer.PubKey.Bytes()))
 	}
+	rec.sessionOK = true
 	c.Clause("session-check-does-not-mutate")
 	if after := mustMarshal(rt, "session after check", session); string(after) != string(signedBytes) {
 		rt.Fatalf("%s", ev.Violation("C25", "ExtractSignerAddress/RecoverPubKey modified the session it checked: before=%x after=%x", signedBytes, after))
@@ -442,6 +463,19 @@ func propC25(rt *rapid.T) {
 
 	// the consumer resolves "latest"-like requested blocks with the reply, as rpcconsumer does before verifying
 	lavaprotocol.UpdateRequestedBlock(request.RelayData, wireReply)
+	// "The request data that was signed" is what the provider's copy held when it signed. Both sides
+	// resolve the requested block the same way today; should they ever disagree, the statement only
+	// speaks about the data that was signed, so the provider's view is taken as the signed one.
+	if pb := provReq.RelayData.RequestBlock; pb != request.RelayData.RequestBlock {
+		if lavaprotocol.VerifyRelayReply(ctx, cloneReply(rt, wireReply), cloneRequest(rt, request), provider.Addr.String()) != nil {
+			alt := cloneRequest(rt, request)
+			alt.RelayData.RequestBlock = pb
+			if lavaprotocol.VerifyRelayReply(ctx, cloneReply(rt, wireReply), alt, provider.Addr.String()) == nil {
+				request.RelayData.RequestBlock = pb
+				classes = append(classes, "signed-request-block:provider-view")
+			}
+		}
+	}
 	if len(request.RelayData.Salt) == 0 {
 		classes = append(classes, "salt:absent-at-verification")
 	}
@@ -450,6 +484,8 @@ func propC25(rt *rapid.T) {
 	replyBytes := mustMarshal(rt, "reply before verification", wireReply)
 	pristineReq := cloneRequest(rt, request)
 	pristineReply := cloneReply(rt, wireReply)
+	rec.reqBytes, rec.replyBytes = reqBytes, replyBytes
+	rec.requestData, rec.reply = pristineReq.RelayData.String(), pristineReply.String()
 	providerAddr := provider.Addr.String()
 
 	// ---- (4)+(6) ---------------------------------------------------------------------------
@@ -458,6 +494,7 @@ func propC25(rt *rapid.T) {
 		rt.Fatalf("%s", ev.Violation("C25", "untampered provider-signed reply does not verify against the provider %s: %v\nrequest data: %s\nreply: %s",
 			providerAddr, err, pristineReq.RelayData.String(), pristineReply.String()))
 	}
+	rec.replyOK = true
 	checkUntouched := func(what string) {
 		c.Clause("verification-does-not-mutate:" + what)
 		afterReq := mustMarshal(rt, "request after verification", request)
@@ -621,12 +658,6 @@ func propC25(rt *rapid.T) {
 		rq.RelaySession.Sig = nil
 	})
 
-	fp := consumer.Addr.String() + "|" + hex.EncodeToString(reqBytes) + "|" + hex.EncodeToString(replyBytes)
-	c.Case(true, fp, classes...)
-	c.Sample(map[string]any{
-		"consumer": consumer.Addr.String(), "provider": providerAddr,
-		"session": signed.String(), "request_data": pristineReq.RelayData.String(), "reply": pristineReply.String(),
-	})
 }
 
 // ---- known-finding witness (used only if the coordinator records the defect instead of fixing it)
